@@ -186,6 +186,114 @@ def eq_jobs(rng, quick):
     return [{"cfg": {}, "events": [{"op": "eq", "a": {"lex": a[0], "dt": a[1]}, "b": {"lex": b[0], "dt": b[1]}, "fam": "eq"}]} for a, b in pairs]
 
 
+# ---- rdf:XMLLiteral / rdf:HTML: the value is the tree ------------------------------------------------------------------
+def _xml_trees(rng, depth=0):
+    """a forest: text nodes and elements (name, attrs, children); no two adjacent text nodes"""
+    out = []
+    for _ in range(rng.choice([0, 1, 1, 2, 3] if depth < 2 else [0, 0, 1])):
+        if out and out[-1][0] == "e" and rng.random() < 0.4 or (not out and rng.random() < 0.3):
+            out.append(("t", rng.choice(["x", "a b", "1 < 2", "é", "A&B", " y "])))
+        else:
+            attrs = {k: rng.choice(["1", "v w", "a'b", "<"]) for k in rng.sample(["id", "class", "x"], rng.choice([0, 0, 1, 2]))}
+            out.append(("e", rng.choice(["a", "b", "em"]), tuple(sorted(attrs.items())), tuple(_xml_trees(rng, depth + 1))))
+    return out
+
+
+def _xml_esc(s, rng, attr=False, q='"'):
+    out = []
+    for ch in s:
+        if ch == "&":
+            out.append("&amp;")
+        elif ch == "<":
+            out.append(rng.choice(["&lt;", "&#60;", "&#x3C;"]))
+        elif attr and ch == q:
+            out.append("&quot;" if q == '"' else "&apos;")
+        elif rng.random() < 0.1:
+            out.append("&#%d;" % ord(ch))
+        else:
+            out.append(ch)
+    return "".join(out)
+
+
+def _xml_render(forest, rng):
+    out = []
+    for n in forest:
+        if n[0] == "t":
+            out.append(_xml_esc(n[1], rng))
+            continue
+        _, name, attrs, kids = n
+        attrs = list(attrs)
+        rng.shuffle(attrs)
+        a = ""
+        for k, v in attrs:
+            q = rng.choice(['"', "'"])
+            a += rng.choice([" ", "  ", "\n"]) + k + "=" + q + _xml_esc(v, rng, True, q) + q
+        if not kids and rng.random() < 0.5:
+            out.append("<%s%s%s/>" % (name, a, rng.choice(["", " "])))
+        else:
+            out.append("<%s%s>%s</%s%s>" % (name, a, _xml_render(kids, rng), name, rng.choice(["", " "])))
+    return "".join(out)
+
+
+def _xml_perturb(forest, rng):
+    """a different forest, close to the given one (or None)"""
+    forest = list(forest)
+    if not forest:
+        return [("e", "a", (), ())]
+    how = rng.choice(["drop_last", "append", "text", "attr", "name", "deep", "swap"])
+    i = rng.randrange(len(forest))
+    n = forest[i]
+    if how == "drop_last":
+        return forest[:-1]
+    if how == "append":
+        return forest + [("e", "b", (), ())]
+    if how == "swap" and len(forest) > 1 and forest[0] != forest[-1] and not (forest[0][0] == "t" and forest[-1][0] == "t"):
+        forest[0], forest[-1] = forest[-1], forest[0]
+        if any(forest[k][0] == "t" and forest[k + 1][0] == "t" for k in range(len(forest) - 1)):
+            return None
+        return forest
+    if n[0] == "t":
+        forest[i] = ("t", n[1] + "!")
+        return forest
+    _, name, attrs, kids = n
+    if how == "name":
+        forest[i] = ("e", name + "x", attrs, kids)
+    elif how == "attr":
+        d = dict(attrs)
+        if d and rng.random() < 0.6:
+            k = rng.choice(sorted(d))
+            if rng.random() < 0.5:
+                d[k] += "2"
+            else:
+                del d[k]
+        else:
+            d["y"] = "1"
+        forest[i] = ("e", name, tuple(sorted(d.items())), kids)
+    else:
+        sub = _xml_perturb(kids, rng)
+        if sub is None:
+            return None
+        if any(sub[k][0] == "t" and sub[k + 1][0] == "t" for k in range(len(sub) - 1)):
+            return None
+        forest[i] = ("e", name, attrs, tuple(sub))
+    return forest
+
+
+def xml_eq_jobs(rng, n):
+    jobs = []
+    while len(jobs) < n:
+        t1 = _xml_trees(rng)
+        if not t1 or all(x[0] == "t" for x in t1) and rng.random() < 0.7:
+            continue
+        same = rng.random() < 0.4
+        t2 = t1 if same else _xml_perturb(t1, rng)
+        if t2 is None or (not same and t2 == t1):
+            continue
+        dt = "XMLLiteral"
+        jobs.append({"cfg": {}, "events": [{"op": "eq", "fam": "xmleq", "a": {"lex": _xml_render(t1, rng), "dt": dt}, "b": {"lex": _xml_render(t2, rng), "dt": dt}, "same": same}]})
+    return jobs
+
+
 def run(out, tier, seed):
     quick = tier == "quick"
     out.rule = ("lexical forms assembled from pieces per datatype (sign x leading zeros x facet boundaries for the 13 integer types; integer / fraction parts for decimal; mantissa x exponent and specials for double / float; "
@@ -197,6 +305,10 @@ def run(out, tier, seed):
                         "non-finite Decimals, offsets that are not whole minutes or exceed 14:00, Durations with mixed signs are outside the value spaces and not generated", "bare bytes without a datatype have no documented datatype and are not judged"]
     out.mc("MCXsdLexical", "MC_XsdLexical.cfg")
     rng = random.Random(seed)
-    jobs = lex_jobs(rng, quick) + py_jobs(rng, quick) + eq_jobs(rng, quick)
+    lj = lex_jobs(rng, quick)
+    jobs = lj + py_jobs(rng, quick) + eq_jobs(rng, quick)
+    jobs += xml_eq_jobs(rng, 600 if quick else 6000)
+    # the same observations after a history: datatypes bound to an application type, the forms seen under it, bindings put back
+    jobs += [{"cfg": dict(j["cfg"], history="rebind"), "events": j["events"]} for j in lj[::(7 if quick else 2)]]
     out.extra["jobs"] = len(jobs)
     out.conform(__name__, TRACE, jobs, nontrivial=nontrivial, chunk=400, par=16, heap="2g")
